@@ -24,6 +24,8 @@ pub struct Cfg {
     pub irate: u64,
     pub iseed: u64,
     pub ikeys: u64,
+    /// kind=inject: scripted inserts may be overtaken at their clock reading (model T motif)
+    pub istamp: bool,
 }
 
 fn parse_opt<T: std::str::FromStr>(s: &str) -> Option<Option<T>> {
@@ -47,6 +49,7 @@ pub fn parse_cfg(line: &str) -> Option<Cfg> {
         irate: 3,
         iseed: 1,
         ikeys: 3,
+        istamp: false,
     };
     let mut it = line.split_whitespace();
     if it.next()? != "cfg" {
@@ -66,6 +69,7 @@ pub fn parse_cfg(line: &str) -> Option<Cfg> {
             "irate" => c.irate = v.parse().ok()?,
             "iseed" | "seed" => c.iseed = v.parse().unwrap_or(1),
             "ikeys" => c.ikeys = v.parse().ok()?,
+            "istamp" => c.istamp = v == "1",
             _ => {}
         }
     }
@@ -348,6 +352,8 @@ pub fn build(cfg: &Cfg) -> Result<Live, String> {
                         busy: false,
                         pub_calls: 0,
                         in_invall: false,
+                        in_ins: None,
+                        stamp: cfg.istamp,
                         clock: clock.clone(),
                         out: Vec::new(),
                         cache: c.clone(),
@@ -557,6 +563,10 @@ struct Inj {
     /// a scripted `invalidate_all` is in progress: at its clock reading (before it stores the
     /// watermark) other logical threads may run whole calls and the clock may move
     in_invall: bool,
+    /// a scripted `insert(k, _)` is in progress and has not read the clock yet: at its clock
+    /// reading another logical thread may advance the clock and update the same key (one shot)
+    in_ins: Option<u64>,
+    stamp: bool,
     clock: VerifClock,
     out: Vec<String>,
     cache: SCache<VKey, VVal, VBuildHasher>,
@@ -698,6 +708,17 @@ fn injected_at_clock_read() {
             Err(_) => return None,
         };
         match b.as_mut() {
+            Some(x) if x.in_ins.is_some() && !x.busy => {
+                // the first clock reading of a scripted insert: the call holds nothing yet
+                let k = x.in_ins.take().unwrap();
+                if x.rng.below(2) != 0 {
+                    return None;
+                }
+                x.busy = true;
+                let v = 20 + x.rng.below(12);
+                let d = [1000u64, 600_000_000][x.rng.below(2) as usize];
+                Some((x.cache.clone(), x.clock.clone(), k, v, 100, d))
+            }
             Some(x) if x.in_invall && !x.busy => {
                 if x.rng.below(2) != 0 {
                     return None;
@@ -712,6 +733,26 @@ fn injected_at_clock_read() {
             _ => None,
         }
     });
+    if let Some((c, clock, k, v, 100, d)) = act {
+        // Another logical thread updates the key of the scripted insert at a LATER clock reading,
+        // and its map write lands first. The scripted insert then writes its value with its own,
+        // older reading; it is linearised at its map step (its line follows these), and the note
+        // `#rd k t` tells the reading it carries (model T, `ConcT.lean`).
+        let t1 = clock.now_ns();
+        let mut lines = Vec::new();
+        clock.advance(dur(d as u128));
+        lines.push(format!("adv {} -> ok", d));
+        c.insert(VKey::new(k), VVal::new(v));
+        lines.push(format!("ins {} {} -> ok", k, v));
+        lines.push(format!("#rd {} {}", k, t1));
+        INJ.with(|i| {
+            if let Some(x) = i.borrow_mut().as_mut() {
+                x.out.extend(lines);
+                x.busy = false;
+            }
+        });
+        return;
+    }
     if let Some((c, clock, k, v, variant, d)) = act {
         let mut lines = Vec::new();
         clock.advance(dur(d as u128));
@@ -733,6 +774,14 @@ fn injected_at_clock_read() {
             }
         });
     }
+}
+
+fn set_in_ins(k: Option<u64>) {
+    INJ.with(|i| {
+        if let Some(x) = i.borrow_mut().as_mut() {
+            x.in_ins = if x.stamp { k } else { None };
+        }
+    });
 }
 
 fn set_in_invall(on: bool) {
@@ -932,7 +981,9 @@ fn exec_sync<S: std::hash::BuildHasher + Clone + Send + Sync + 'static>(c: &SCac
     match first {
         Some("ins") if ws.len() == 3 => match (num(1), num(2)) {
             (Some(k), Some(v)) => {
+                set_in_ins(Some(k));
                 c.insert(VKey::new(k), VVal::new(v));
+                set_in_ins(None);
                 "ok".into()
             }
             _ => "bad-op".into(),
